@@ -19,15 +19,21 @@ TRUSTED_BASE = [
     "Lean 4.33.0 kernel (thorough tier: leanchecker replay of the property modules)",
     "axioms: propext, Classical.choice, Quot.sound only (audited per theorem with #print axioms); no native_decide, no sorry",
     "Mathlib v4.33.0 definitions of ℝ, ℂ, Real.sin/cos/exp/arcsin/sqrt/rpow, Finset sums, Lagrange.basis",
-    "py2lean translator (vk/translate.py): validated each run by executing the generated code in Float against the Python it came from; "
-    "TRANSLATED from /repo each run (Gen/*.lean): the 6 Numba kernels + helpers + reducer, the 6 CUDA kernels + host wrappers, the whole "
-    "SpectrumResult.__getattr__ table, kaiser_alpha/kaiser_rov/round_half_up/find_Jdes_binary_search (its scheduler call is an abstract "
-    "count function), the walks of ltf_plan/new_ltf_plan/vectorized_ltf_plan (NumPy whole-array code: np.logspace/np.searchsorted are "
-    "stated contracts), the start positions of ltf_plan and the closed-form shift/D/O of the other two, lagrange_taps (one shift), the "
-    "IIR cascade and coefficient design of noise.py, compute_single_bin's segmentation and omega, SpectrumAnalyzer.__init__'s buffer "
-    "operations; each proved EQUAL to the hand model the property theorems are about (Props/*Gen.lean). HAND-MODELLED and tied by "
-    "correspondence only: plan()/band/force glue, _lpsd_core's per-bin loop and caches, timeshift's two paths, generator classes, "
-    "fftnoise/band-limited noise, get_rms/get_measurement/to_dataframe, MISO/SISO solvers, polynomial_detrend",
+    "py2lean translator (vk/translate.py + region plug-ins vk/regions/*.py): validated each run by executing the generated code in Float against the "
+    "Python it came from; TRANSLATED from /repo each run (Gen/*.lean), each proved EQUAL to the hand model / specification the property theorems "
+    "are about (Props/*Gen.lean): the 6 Numba kernels + helpers + reducer, the 6 CUDA kernels + host wrappers, the 6 NumPy fallback kernels + "
+    "_gather_segments (whole-array semantics, chunk loop literal) and their buffer operations (KernelHeap: no kernel writes a caller buffer); the whole "
+    "SpectrumResult.__getattr__ formula table and its cache protocol, __dir__, get_measurement, to_dataframe's column selection, get_rms, compute()'s "
+    "assembly of the per-bin rows; _lpsd_core's per-bin loop with its window and basis caches and the 18-way kernel dispatch, the same dispatch in "
+    "compute_single_bin, its request resolution, segmentation and omega, plan()'s cache / force_target_nf / keyword logic, validation and band "
+    "restriction, _process_window_config, _process_scheduler_config, __init__'s buffer operations; kaiser_alpha / kaiser_rov / round_half_up / "
+    "find_Jdes_binary_search; the walks of ltf_plan / new_ltf_plan / vectorized_ltf_plan, their start positions, closed-form shift/D/O, overlap loop, "
+    "argument unpacking, output dictionaries, lpsd_plan's forwarding; lagrange_taps, timeshift (both paths), df_timeshift's arithmetic; crop_data, "
+    "integral_rms, polynomial_detrend; the noise generator classes as state machines, the IIR cascade and coefficient design, alpha_noise's corner "
+    "placement, fftnoise's spectrum assembly, band_limited_noise's mask; the assembly of T / S / S00, the solver call and the residual formulas of "
+    "the SISO / MISO functions. External routines enter the translated code as stated CONTRACTS (Lean definitions in SpecKitV/Np/*.lean, one sealed "
+    "`opaque` for scipy.lfilter's state on an empty block; never axioms), listed per property in `assumptions`/CONTRACTS. HAND-MODELLED and tied by "
+    "correspondence only: copy / pickle / DataFrame object protocol, df_detrend and the file loaders, plotting, the CUDA launch machinery",
     "correspondence harness (vk/props/*.py) and Lean driver (lean/Driver.lean)",
     "modelled, not verified: CPython/Numba/LLVM/NVVM semantics, IEEE rounding and fastmath, GPU execution (CUDA simulator only), "
     "LAPACK QR / np.polyfit / np.linalg.solve,pinv / sympy.solve / scipy.signal.lfilter / np.fft / np.interp / numpy Generator (stated contracts)",
